@@ -363,3 +363,35 @@ Definition g_no_name_pressure (g : graph) : bool := disjoint_all (map node_cls g
 Definition op_mints (o : op) : list cls := match o with OMintModel c _ => [c] | OMintEnum c _ => [c] | _ => [] end.
 Definition prog_mints (p : list instr) : list cls := flat_map (fun i => op_mints (i_op i)) p.
 Definition node_mints (n : node) : list cls := prog_mints (n_create n) ++ flat_map (fun e => prog_mints (e_prog e)) (n_entries n).
+
+(* ---------------------------------------------------------------- guards of the containment theorem (GraphLfp.v) *)
+(* every class-name operation reports its own category (it is not inside a union, whose error would hide it), and no instruction
+   carries the "recursive" flag (a self allOf / a reference ending in the name of the class being processed) *)
+Definition instr_plain (i : instr) : bool :=
+  negb (i_ovr i =? cat_recursive) &&
+  match i_op i with
+  | OFail c => negb (c =? cat_recursive)
+  | OMintModel _ _ | OMintEnum _ _ => i_ovr i =? 0
+  | ONeed _ _ _ _ r => negb r
+  | OAllOf _ _ r => negb r
+  | _ => true
+  end.
+Definition all_progs (g : graph) : list (list instr) := flat_map (fun n => n_create n :: map e_prog (n_entries n)) g.
+Definition g_plain (g : graph) : bool := forallb (forallb instr_plain) (all_progs g).
+(* no duplicate-name / conflicting-enum diagnostic in the run *)
+Definition g_no_dup_error (g : graph) : bool :=
+  forallb (fun e => negb (er_cat e =? cat_dup) && negb (er_cat e =? cat_enum_conflict)) (res_errs (build_schemas g)).
+Definition need_ts (p : list instr) : list ref := flat_map (fun i => match i_op i with ONeed _ t _ _ _ => [t] | _ => [] end) p.
+Definition allof_ts (p : list instr) : list ref := flat_map (fun i => match i_op i with OAllOf t _ _ => [t] | _ => [] end) p.
+Definition static_ok_c (p : list instr) : bool := forallb (fun i => match i_op i with OFail _ | OAllOf _ _ _ => false | _ => true end) p.
+Definition static_ok_p (p : list instr) : bool := forallb (fun i => match i_op i with OFail _ => false | _ => true end) p.
+Fixpoint find_node (g : graph) (r : ref) : option node :=
+  match g with [] => None | n :: g' => if n_ref n =? r then Some n else find_node g' r end.
+Definition is_twrap (n : node) : bool := match n_top n with TWrap _ => true | _ => false end.
+(* no allOf parent is itself a single-reference wrapper component *)
+Definition g_allof_direct (g : graph) : bool :=
+  forallb (forallb (fun i => match i_op i with
+                             | OAllOf t _ _ => match find_node g t with Some m => negb (is_twrap m) | None => true end
+                             | _ => true end)) (all_progs g).
+Definition g_contain (g : graph) : bool :=
+  wf_graph g && g_plain g && g_allof_direct g && g_no_dup_error g && g_no_union_edge_to_failing g.
